@@ -83,7 +83,8 @@ FAMILIES = {
                            chain(5, hops=2, Fresh="= TRUE", Ops="<- OpsRetain", Shapes="<- ShapesOneW", Shapes2="<- Shapes2R")]),
     "Format": fam("MC_Format", full=True,
                   quick=[chain(2, hops=0), sim(400, 5, design=False, NSlots="= 2"),
-                         chain(4, hops=0, Ops="<- OpsDomains", Shapes="<- ShapesDom", Shapes2="<- ShapesDom")],
+                         chain(4, hops=0, Ops="<- OpsDomains", Shapes="<- ShapesDom", Shapes2="<- ShapesDom"),
+                         ex(4, NSlots="= 2", Ops="<- OpsShared", Shapes="<- ShapesOneF", Shapes2="<- ShapesOneF")],
                   thorough=[ex(2), chain(2, hops=0), sim(8000, 7, design=False, NSlots="= 3")]),
     "Faults": dict(module="MC_Faults", spec="FSpec", pre="regdump", constants=dict(BASE, NSlots="= 1"),
                    invariants=["Emit", "DecTotal"],
